@@ -204,6 +204,12 @@ def handle (req : Sexp) : Sexp :=
       | .ok qs => .list [.atom "ok", .list (qs.map dparsedS)]
       | .error e => .list [.atom "err", .atom (derrS e)]
     | _ => bad
+  | .list [.atom "dnames", r] =>
+    match drec? r with
+    | some r => .list ((diagNames r).map (fun o => match o with
+        | some n => .list [.atom "some", .atom n]
+        | none => .atom "none"))
+    | _ => bad
   | .list [.atom "dlen", r] =>
     match drec? r with
     | some r => Sexp.ofNat (diagLen r)
